@@ -7,6 +7,7 @@ import (
 	"os"
 	"path/filepath"
 	"strconv"
+	"strings"
 )
 
 // maskEntry is one entry of /verif/c01_dontcare.json.
@@ -25,6 +26,7 @@ type maskEntry struct {
 	bits   []byte
 	anyVer bool
 	ver    byte
+	orMore bool // "N+": version byte >= N (the layout the decoder applies to all higher versions)
 }
 
 type normEntry struct {
@@ -79,7 +81,12 @@ func loadDontCare(verifDir string) (*dontCare, error) {
 		if m.Version == "any" || m.Version == "" {
 			m.anyVer = true
 		} else {
-			v, err := strconv.Atoi(m.Version)
+			vs := m.Version
+			if strings.HasSuffix(vs, "+") {
+				m.orMore = true
+				vs = strings.TrimSuffix(vs, "+")
+			}
+			v, err := strconv.Atoi(vs)
 			if err != nil || v < 0 || v > 255 {
 				return nil, fmt.Errorf("c01_dontcare.json: %s: bad version %q", m.ID, m.Version)
 			}
@@ -106,7 +113,7 @@ func (dc *dontCare) cover(typ string, payload []byte, off int, locCache map[stri
 	var bits byte
 	var by *maskEntry
 	for _, m := range dc.byType[typ] {
-		if !m.anyVer && m.ver != ver {
+		if !m.anyVer && m.ver != ver && !(m.orMore && ver > m.ver) {
 			continue
 		}
 		if m.Locator == "" {
